@@ -15,6 +15,7 @@ RULE = (
     "are '' or ' ', nothing before the first token, ; and : attached, closing delimiters that start a line are indented "
     "like the line holding their opener. Second generator: every text written by a successful set/rm of a C05 edit history on a "
     "generated document (a rebuilt text as well) is scanned by the same oracle. Non-trivial = >=1 gap perturbed with a non-canonical whitespace class."
+    ' Own-line `#` comments are checked for indentation in three positions (behind the last token: column 0; in front of a binding / list element: its column; in front of `}` / `]` of a set or list: two columns inside). `positioned_texts`: block comments sharing the line of `let` / `in` in 7 wrappers x 4 comment forms.'
 )
 ASSUMPTIONS = [
     "whitespace inside an interpolation of a string is string content (nima keeps strings raw)",
